@@ -50,7 +50,7 @@ class Float(float, AnyAtomicType):
                         return float_nan
                     except NameError:
                         pass
-            elif value.lower() in INVALID_NUMERIC:
+            elif cls.pattern.match(value) is None or value.endswith('NaN'):
                 raise cls._invalid_value(value)
         elif math.isnan(value):
             try:
